@@ -34,9 +34,11 @@ def run(ctx):
 
         def key(p):
             i, e, loc = p.split('@')
-            path = '.' if loc == '.' else '/'.join(bytes.fromhex(s).decode('utf8', 'surrogateescape') if s != '-' else '' for s in loc.split('/'))
-            return (('n%d' % (int(i) // 3)).encode(), ('v%d' % (int(i) % 3)).encode(), ('e' + e).encode(), ('[' + path + ']').encode('utf8', 'surrogateescape'))
+            locs = [bytes.fromhex(s) if s != '-' else b'' for s in loc.split('+')]
+            return (('n%d' % (int(i) // 3)).encode(), ('v%d' % (int(i) % 3)).encode(), ('e' + e).encode(), b'[' + b' '.join(locs) + b']', locs != sorted(locs))
         ks = [key(p) for p in pk]
+        if any(k[4] for k in ks):
+            return 'a package is reported with unsorted locations: %s' % pk[:6]
         if ks != sorted(ks):
             return 'packages are not emitted in CmpPackages order: %s' % pk[:6]
         st = fi.get('st', '-')
